@@ -691,7 +691,7 @@ func genBitHistory(r *rng, maxOps, maxBits int, id int) Call {
 			if length+nb > maxBits {
 				nb = maxBits - length
 			}
-			op := BitOp{Op: "fill", N: nb, A: []int{1, 31, 32, 33, 1000, 4096, 5000}[r.intn(7)], Reads: r.intn(1 << 20)}
+			op := BitOp{Op: "fill", N: nb, A: []int{1, 31, 32, 33, 1000, 4096, 5000, 8193, 20000, 65537, 300000}[r.intn(11)], Reads: r.intn(1 << 20)}
 			switch r.intn(5) {
 			case 0:
 				op.V = true
@@ -715,6 +715,9 @@ func genBitHistory(r *rng, maxOps, maxBits int, id int) Call {
 			k := r.rangeIn(0, 40)
 			if style == 1 && r.chance(0.5) {
 				k = r.rangeIn(100, 5000)
+				if r.chance(0.15) {
+					k = r.rangeIn(5000, 40000) // one very large variadic call
+				}
 			}
 			if length+k > maxBits {
 				k = 1
